@@ -70,6 +70,9 @@ def variants(name, f):
         v['other'] = {p: d + 3 + i for i, (p, d) in enumerate(wins)}
         # long windows: the influence of candles before the 240-candle warm-up window is still visible in recursive kernels
         v['large'] = {p: 40 + 5 * ranked.index(d) for p, d in wins}
+        # windows that take a large part of the 240-candle warm-up window: whether the non-sequential path really works on that
+        # window (and not on the whole history) is only visible here
+        v['huge'] = {p: 90 + 30 * ranked.index(d) for p, d in wins}
     return v
 
 
